@@ -6,7 +6,7 @@
     X(size_t, g_body_n) X(const unsigned char *, g_body_ptr) X(size_t, g_body_len) X(int, g_body_rc) \
     X(size_t, g_txstate_n) X(int, g_txstate_which) X(int, g_txstate_rc) \
     X(size_t, g_state_calls) X(size_t, g_hook_n) X(int, g_in_gap) \
-    X(size_t, g_clear_n) X(size_t, g_consol_n) X(size_t, g_create_n) \
+    X(size_t, g_clear_n) X(size_t, g_consol_n) X(size_t, g_create_n) X(size_t, g_consol_len) X(int64_t, g_pcl_value) \
     X(const unsigned char *, g_hook_ptr) X(size_t, g_hook_len) X(const void *, g_hook_tx) X(int, g_hook_rc) X(int, g_hook_last)
 /* largest stream offset / message length for which the int64 counters provably do not wrap in one call */
 #define OFFMAX ((int64_t) 1 << 62)
@@ -25,11 +25,14 @@
     (c)->in_current_read_offset <= (c)->in_current_len && \
     0 <= (c)->in_current_receiver_offset && (c)->in_current_receiver_offset <= (c)->in_current_read_offset && \
     (c)->in_stream_offset >= 0)
+/* response side: consume <= read holds in every state except after the invalid-chunk-length rewind (htp_response.c:432-436), which
+ * moves read back without touching consume and enters RES_BODY_IDENTITY_STREAM_CLOSE (and from there RES_FINALIZE on a closed stream) */
 #define CUR_OUT_CURSOR(c) ((c)->out_current_len >= 0 && (c)->out_current_len <= CHUNK_CAP && \
-    0 <= (c)->out_current_consume_offset && (c)->out_current_consume_offset <= (c)->out_current_read_offset && \
-    (c)->out_current_read_offset <= (c)->out_current_len && \
-    0 <= (c)->out_current_receiver_offset && (c)->out_current_receiver_offset <= (c)->out_current_read_offset && \
-    (c)->out_stream_offset >= 0)
+    0 <= (c)->out_current_consume_offset && \
+    0 <= (c)->out_current_read_offset && (c)->out_current_read_offset <= (c)->out_current_len && \
+    0 <= (c)->out_current_receiver_offset && (c)->out_current_receiver_offset <= (c)->out_current_len && \
+    (c)->out_stream_offset >= 0 && (c)->out_current_consume_offset <= (c)->out_current_len + (c)->out_current_read_offset && \
+    (((c)->out_current_consume_offset <= (c)->out_current_read_offset && (c)->out_current_receiver_offset <= (c)->out_current_read_offset) || (c)->out_state == htp_connp_RES_BODY_IDENTITY_STREAM_CLOSE || (c)->out_state == htp_connp_RES_FINALIZE))
 /* coarse frame of the shared state contract: the parser object itself (fields that must survive are re-stated in RQ_COMMON_POST) */
 #define RQ_STATE_FRAME(c) g_state_calls, __CPROVER_object_whole(c)
 #define RS_STATE_FRAME(c) g_state_calls, __CPROVER_object_whole(c)
